@@ -56,8 +56,8 @@ CLAIMS.update({
 PART = " PARTIAL CLAIM: "
 CLAIMS.update({
     "C01": dict(
-        text="The unit every output node comes from — one call of the private CompressFromHash::build_node, driven through an add-only hook from an ARBITRARY valid table (1-3 rows: all keys, extension sets, payloads), availability subset containing the seed, strandedness and seed row — is proved against a reference walk written in string terms: the node sequence has one base per member beyond the first; the seed and every walked k-mer sit at exactly the offset of their position in the chain, in their walked orientation (so consecutive members overlap by K-1 and follow the extension that was walked); no row outside the chain is consumed and every chain member leaves the availability set (hence a k-mer can enter only one node); the payload equals the caller's reduction over exactly the member rows (commutative test reduction, and the payload-equality spec); the node's extensions are the outward extensions of its two end k-mers in node orientation. extend_kmer (the whole walk) is decided separately." + PART + "the outer seed loop of compress_kmers (`for every still-available row: build_node, add`), BaseGraph::add of a symbolic-length sequence into the packed store (its one-step form is decided under C14), compress_kmers_no_exts (HashSet) and the finished graph are NOT executed: compress_kmers on 2 rows exceeds 30 GB in CBMC.",
-        note="Bounds: tables of 2-3 rows over Kmer4 (quick), 1-3 rows over Kmer3/4 and 2 rows over Kmer5/6 (thorough). boomphf = model M1. Assumed table validity: distinct keys, canonical when unstranded, reciprocal extension on every examined link (the code's documented unreachable panic). Scratch deque pre-reserved by the harness (capacity unobservable) with VecDeque::grow stubbed to an asserted-unreachable (S6). Stubs S1, S2, S6.",
+        text="The unit every output node comes from — one call of the private CompressFromHash::build_node, driven through an add-only hook from an ARBITRARY valid table (2-3 rows: all keys, extension sets, payloads), availability subset containing the seed, strandedness and seed row — is proved against a reference walk written in string terms: the node sequence has one base per member beyond the first; the seed and every walked k-mer sit at exactly the offset of their position in the chain, in their walked orientation (so consecutive members overlap by K-1 and follow the extension that was walked); no row outside the chain is consumed and every chain member leaves the availability set (hence a k-mer can enter only one node); the payload equals the caller's reduction over exactly the member rows (commutative test reduction, and the payload-equality spec); the node's extensions are the outward extensions of its two end k-mers in node orientation. extend_kmer (the whole walk) is decided separately." + PART + "the outer seed loop of compress_kmers (`for every still-available row: build_node, add`), BaseGraph::add of a symbolic-length sequence into the packed store (its one-step form is decided under C14), compress_kmers_no_exts (HashSet) and the finished graph are NOT executed: compress_kmers on 2 rows exceeds 30 GB in CBMC.",
+        note="Bounds: tables of 2-3 rows over Kmer4 (quick), 2-3 rows over Kmer3/4 and 2 rows over Kmer5/6 (thorough). boomphf = model M1. Assumed table validity: distinct keys, canonical when unstranded, reciprocal extension on every examined link (the code's documented unreachable panic). Scratch deque pre-reserved by the harness (capacity unobservable) with VecDeque::grow stubbed to an asserted-unreachable (S6). Stubs S1, S2, S6.",
         ref="DESIGN.md §5 C01"),
     "C20": dict(
         text="GFA and JSON export of 1- and 2-node graphs (all bases, all 256 extension sets per node, stranded and unstranded) into a streaming oracle sink, decided against a reference adjacency matrix computed in string terms: GFA — header, every node listed exactly once with its exact sequence, every L line well formed with overlap K-1 and denoting an adjacency of the graph with the right orientation signs, every adjacency (self-links on either side included) listed, and listed once unless it touches a palindromic single-k-mer node; JSON — token-level well-formedness (a value only after [ { , : ; a comma only after a value or a close and never before a close; balanced brackets), every node listed once, the link objects are exactly the right-going adjacencies, each once." + PART + "serde round-trips of k-mers / strings / extension sets / graphs (serde_json and bincode on symbolic data), DOT export, tags, file I/O, graphs with >= 3 nodes or ids >= 8, and the empty graph are NOT covered; the 2-node JSON query needs ~20 GB and runs in the thorough tier only (the quick tier decides JSON on 1-node graphs and GFA on 1- and 2-node graphs).",
